@@ -127,46 +127,74 @@ def representable(desc):
 
 # ---------------------------------------------------------------- the property
 def compare(desc, got):
-    """first difference between the description and what was read back, or None"""
-    if got['sim'] != desc['sim']: return ('flavour', got['sim'], desc['sim'])
+    """every kind of difference between the description and what was read back (at most one witness per kind)"""
+    out = []
+    if got['sim'] != desc['sim']: out.append(('flavour', got['sim'], desc['sim']))
     names = [b['name'] for b in desc['blocks']]
     gnames = [b['name'] for b in got['blocks']]
-    if sorted(names) != sorted(gnames): return ('names', gnames[:8], names[:8])
-    if names != gnames: return ('order', gnames[:8], names[:8])
+    if sorted(names) != sorted(gnames): return out + [('names', gnames[:8], names[:8])]
+    if names != gnames: return out + [('order', gnames[:8], names[:8])]
+    seen = set()
+
+    def add(kind, obs, req):
+        if kind not in seen: seen.add(kind); out.append((kind, obs, req))
     for b, g in zip(desc['blocks'], got['blocks']):
-        if len(b['vars']) != len(g['vars']): return ('variables', g['vars'], b['vars'])
-        for x, y in zip(b['vars'], g['vars']):
-            if not close_to(x, y, 20, 13): return ('variables', repr(y), repr(x))
+        if len(b['vars']) != len(g['vars']): add('variables', g['vars'], b['vars'])
+        else:
+            for x, y in zip(b['vars'], g['vars']):
+                if not close_to(x, y, 20, 13): add('variables', repr(y), repr(x))
         if (b['porosity'] is None) != (g['porosity'] is None) or \
            (b['porosity'] is not None and not close_to(b['porosity'], g['porosity'], 15, 9)):
-            return ('porosity', repr(g['porosity']), repr(b['porosity']))
+            add('porosity', repr(g['porosity']), repr(b['porosity']))
         if (b['perm'] is None) != (g['perm'] is None) or \
            (b['perm'] is not None and not all(close_to(x, y, 15, 9) for x, y in zip(b['perm'], g['perm']))):
-            return ('permeability', repr(g['perm']), repr(b['perm']))
+            add('permeability', repr(g['perm']), repr(b['perm']))
         if (b['nseq'], b['nadd']) != (g['nseq'], g['nadd']) or any(isinstance(v, bool) or not isinstance(v, (int, type(None))) for v in (g['nseq'], g['nadd'])):
-            return ('nseq-nadd', repr((g['nseq'], g['nadd'])), repr((b['nseq'], b['nadd'])))
+            add('nseq-nadd', repr((g['nseq'], g['nadd'])), repr((b['nseq'], b['nadd'])))
     t, gt = desc['timing'], got['timing']
     if desc['reset'] or t is None:
-        if gt is not None: return ('timing', repr(gt), 'None')
+        if gt is not None: add('timing', repr(gt), 'None')
     else:
-        if gt is None: return ('timing', 'None', repr(t))
-        for k in ('kcyc', 'iter', 'nm'):
-            if gt.get(k) != t[k]: return ('timing', repr(gt), repr(t))
-        for k in ('tstart', 'sumtim'):
-            if (t[k] is None) != (gt.get(k) is None) or (t[k] is not None and not close_to(t[k], gt[k], 15, 9)):
-                return ('timing', repr(gt), repr(t))
+        if gt is None: add('timing', 'None', repr(t))
+        else:
+            for k in ('kcyc', 'iter', 'nm'):
+                if gt.get(k) != t[k]: add('timing', repr(gt), repr(t))
+            for k in ('tstart', 'sumtim'):
+                if (t[k] is None) != (gt.get(k) is None) or (t[k] is not None and not close_to(t[k], gt[k], 15, 9)):
+                    add('timing', repr(gt), repr(t))
+    return out
+
+
+def toughreact_without_permeability(desc):
+    return desc['sim'] == 'TOUGHREACT' and not any(b['perm'] is not None for b in desc['blocks'])
+
+
+def sci_text(x, w, p):
+    """x in scientific notation, right-justified in w columns with the most decimals (at most p) that fit"""
+    for q in range(p, -1, -1):
+        t = '%*.*e' % (w, q, x)
+        if len(t) <= w: return t
     return None
 
 
-def classify(desc, what, text1=None, text2=None):
-    tr_noperm = desc['sim'] == 'TOUGHREACT' and not any(b['perm'] is not None for b in desc['blocks'])
-    if what in ('flavour', 'timing') and tr_noperm:
+def header_double_rounding(desc, text1, text2, got):
+    """the two files differ in the sumtim field of the long header only, and each holds 12.6e of the value its writer
+    had in memory: the original sumtim, and sumtim as the 15.9e timing record returned it"""
+    t = desc['timing']
+    if t is None or desc['reset'] or t.get('sumtim') is None or text1 is None or text2 is None or not got or not got.get('timing'): return False
+    l1, l2 = text1.split('\n'), text2.split('\n')
+    if len(l1) != len(l2) or l1[1:] != l2[1:] or l1[0][:-12] != l2[0][:-12] or len(l1[0]) != 67 or len(l2[0]) != 67: return False
+    s, s2 = t['sumtim'], got['timing'].get('sumtim')
+    return isinstance(s2, float) and close_to(s, s2, 15, 9) and l1[0][-12:] == sci_text(s, 12, 6) and l2[0][-12:] == sci_text(s2, 12, 6)
+
+
+def classify(desc, what, text1=None, text2=None, got=None):
+    """finding key = call site : input class (DESIGN.md appendix D)"""
+    if toughreact_without_permeability(desc) and got is not None and got['sim'] == 'TOUGH2' and what in ('flavour', 'timing'):
+        # the flavour is lost; when a timing record was kept it is then parsed with the other flavour's layout
         return 't2incon.read:toughreact-without-permeability'
-    if what == 'rewrite-differs' and text1 is not None:
-        l1, l2 = text1.split('\n'), text2.split('\n')
-        if len(l1) == len(l2) and l1[1:] == l2[1:] and desc['timing'] is not None and not desc['reset'] and \
-           l1[0][:-12] == l2[0][:-12]:
-            return 't2incon.write:header-sumtim-double-rounding'
+    if what == 'rewrite-differs' and header_double_rounding(desc, text1, text2, got):
+        return 't2incon.write:header-sumtim-double-rounding'
     return 't2incon.roundtrip:%s' % what
 
 
@@ -196,20 +224,27 @@ def roundtrip(desc, tmpdir):
     return out
 
 
-def evaluate(desc, out):
-    """The property statement on one outcome: None, or (what, observed, required)."""
+def evaluate_all(desc, out):
+    """The property statement on one outcome: the list of (what, observed, required) -- empty when it holds."""
     if 'write_raised' in out:
-        if representable(desc): return ('write-raises', out['write_raised'], 'file written')
-        return None
-    if 'read_raised' in out: return ('read-raises', out['read_raised'], 'object read back')
-    diff = compare(desc, out['got'])
-    if diff: return diff
-    if 'rewrite_raised' in out: return ('rewrite-raises', out['rewrite_raised'], 'second file written')
+        if representable(desc): return [('write-raises', out['write_raised'], 'file written')]
+        return []
+    if 'read_raised' in out: return [('read-raises', out['read_raised'], 'object read back')]
+    bad = compare(desc, out['got'])
+    if any(w in ('flavour', 'names', 'order', 'timing') for w, _, _ in bad):
+        return bad         # the second file of a different object is not compared
+    if 'rewrite_raised' in out: return bad + [('rewrite-raises', out['rewrite_raised'], 'second file written')]
     if out['text2'] != out['text1']:
         l1, l2 = out['text1'].split('\n'), out['text2'].split('\n')
         k = next((i for i, (a, b) in enumerate(zip(l1, l2)) if a != b), min(len(l1), len(l2)))
-        return ('rewrite-differs', 'line %d: %r' % (k, l2[k] if k < len(l2) else '<missing>'), 'line %d: %r' % (k, l1[k] if k < len(l1) else '<missing>'))
-    return None
+        bad.append(('rewrite-differs', 'line %d: %r' % (k, l2[k] if k < len(l2) else '<missing>'), 'line %d: %r' % (k, l1[k] if k < len(l1) else '<missing>')))
+    return bad
+
+
+def evaluate(desc, out):
+    """first failure, or None"""
+    bad = evaluate_all(desc, out)
+    return bad[0] if bad else None
 
 
 # ---------------------------------------------------------------- generator
@@ -236,6 +271,13 @@ def convention_names(rng, n, allow_conv3=True):
         if len(nm) != 5 or nm in seen: continue
         seen.add(nm); names.append(nm)
     return names, conv == 3
+
+
+def tough2_name(nm):
+    """the simulator's own rule for an element name, (A3,I2): three printable characters, then a number of at most two
+    digits right-justified in two columns (stated here independently of mulgrids.valid_blockname)"""
+    import re
+    return re.match(r'^[A-Za-z0-9 !-/:-@\[-`{-~]{3}[0-9 ][0-9]$', nm) is not None
 
 
 REAL_CLASSES = ['ordinary', 'negative', 'huge', 'tiny', 'neg3', 'zero', 'tie', 'carry', 'random']
@@ -294,8 +336,15 @@ def gen_desc(rng, thorough=False, oracle_only=True):
                                         gen_real(rng, 'huge'), gen_real(rng, 'random', nonneg=True)])}
     reset = rng.random() < 0.4
     nv = nvars if (nvars > 4 or rng.random() < 0.6) else None
-    check = (not conv3) and rng.random() < 0.85
+    # check_blocknames=True (the default) promises to reject names the simulator cannot hold: used only when every name is one
+    check = all(tough2_name(unfixed(nm)) for nm in names) and rng.random() < 0.85
     return {'sim': sim, 'reset': reset, 'nv': nv, 'check': check, 'timing': timing, 'blocks': blocks}
+
+
+def unfixed(nm):
+    """the name as the file holds it: the zero PyTOUGH puts into a digit-blank-digit name is a blank again"""
+    if len(nm) == 5 and nm[3:5].isdigit(): return nm[:3] + '%2d' % int(nm[3:5])
+    return nm
 
 
 def nontrivial(desc):
@@ -327,3 +376,54 @@ def distribution(descs):
             k = len(x['blocks'][0]['vars']); nvh[k] = nvh.get(k, 0) + 1
     d['variables_per_block'] = {str(k): nvh[k] for k in sorted(nvh)}
     return d
+
+
+# ---------------------------------------------------------------- shipped files
+import re as _re
+_FNUM = _re.compile(r'^([-+]?(?:\d+\.?\d*|\.\d+))(?:[EeDd]([-+]?\d+)|([-+]\d+))?$')
+
+
+def fortran_number(s):
+    """a printed Fortran real (E or D exponent, or a bare signed 3-digit exponent); None for a blank field"""
+    t = s.replace(' ', '').replace('\n', '')
+    if not t: return None
+    m = _FNUM.match(t)
+    if not m: raise ValueError('not a Fortran number: %r' % s)
+    return float(m.group(1) + 'e' + (m.group(2) or m.group(3) or '0'))
+
+
+def independent_parse(text, nlines):
+    """the blocks of an INCON / SAVE file by the file format's own columns: (A3,I2) name, two I5, E15.9 reals, then
+    `nlines` lines of E20.13 values.  Returns [(name, nseq, nadd, porosity, perm, values)]."""
+    lines = text.split('\n')[1:]
+    out, k = [], 0
+    while k < len(lines) and lines[k].strip() and not lines[k].startswith('+++'):
+        h = lines[k]; k += 1
+        ints = [int(h[a:a + 5]) if h[a:a + 5].strip() else None for a in (5, 10)]
+        reals = [fortran_number(h[a:a + 15]) for a in (15, 30, 45, 60)]
+        vals = []
+        for _ in range(nlines):
+            v = lines[k]; k += 1
+            vals += [fortran_number(v[a:a + 20]) for a in range(0, len(v), 20)]
+        while vals and vals[-1] is None: vals.pop()
+        out.append((h[:5], ints[0], ints[1], reals[0], None if None in reals[1:] else reals[1:], vals))
+    return out
+
+
+def shipped_values(path, nv):
+    """what t2incon(path) holds against the independent parse; returns a difference or None"""
+    from t2incons import t2incon
+    text = open(path).read()
+    ref = independent_parse(text, 1 if nv is None else (nv + 3) // 4)
+    got = snapshot(t2incon(path, num_variables=nv))
+    if len(ref) != len(got['blocks']): return ('block count', len(got['blocks']), len(ref))
+    for r, g in zip(ref, got['blocks']):
+        mine = (unfixed(g['name']), g['nseq'], g['nadd'], g['porosity'], g['perm'], g['vars'])
+        if mine != r: return ('block %r' % r[0], repr(mine)[:300], repr(r)[:300])
+    return None
+
+
+def desc_of_file(path, nv, reset):
+    from t2incons import t2incon
+    s = snapshot(t2incon(path, num_variables=nv))
+    return {'sim': s['sim'], 'reset': reset, 'nv': nv, 'check': True, 'timing': s['timing'], 'blocks': s['blocks']}
